@@ -70,6 +70,15 @@ pub const EXPR_ERRORS: &[(&str, &str)] = &[
     ("shorthand undefined", "{undef_w}"),
     ("printing a self-containing list", "print(cyc)"),
     ("slot fails to parse", "$\"a ${1 +} b\""),
+    ("a later slot fails to parse after a slot that printed", "$\"${[\"\", \"s\"][pr_()]}a${1 +}\""),
+    ("a later slot fails to parse after a slot that fails", "$\"${undef_s}a${1 +}\""),
+    ("a later slot holds an unexpected character after a slot that fails", "$\"${ob.zz}a${1 ~ 2}\""),
+    ("a later slot fails to parse after a non-string slot", "$\"${5}${)}\""),
+    ("an earlier slot fails to parse before a slot that would print", "$\"${(}${pr_()}\""),
+    ("a later slot is empty after a slot that printed", "$\"${[\"\"][pr_() - 1]}${}\""),
+    ("built-in called through an object", "{\"sink\": print}.sink(1)"),
+    ("built-in called through an item", "[{\"p\": print}][0].p(\"x\")"),
+    ("type function stored in an object and called", "{\"n\": \"abc\"->len}.n()"),
     ("slot fails", "$\"${undef_s}\""),
     ("slot holds an unexpected character", "$\"a ${1 ~ 2} b\""),
     ("slot holds an invalid escape", "$\"${\"\\q\"}\""),
@@ -85,6 +94,14 @@ pub const EXPR_ERRORS: &[(&str, &str)] = &[
 /// statements that fail
 pub const STMT_ERRORS: &[(&str, &str)] = &[
     ("redeclaration", "x_ := 1\nx_ := 2\n"),
+    ("built-in stored in an object and called through it", "lg_ := {\"sink\": print, \"n\": 0}\nprint(\"direct\")\nlg_.sink(\"line\")\n"),
+    ("built-in stored in an object and called by key", "lg_ := {\"sink\": print}\nlg_[\"sink\"](\"line\")\n"),
+    ("built-in taken from an object and called later", "lg_ := {\"sink\": print}\nh_ := lg_.sink\nh_(\"line\")\n"),
+    ("built-in reached through a method", "lg_ := {\"sink\": print, \"log\": fn (l) {\nthis.sink(l)\n}}\nlg_.log(\"line\")\n"),
+    ("ill-shaped argument for a function with an empty body", "fn ig_([a_, b_]) {\n}\nig_([1])\n"),
+    ("ill-shaped item for a loop with an empty body", "for [i_, [a_, b_]] in [[1]] {\n}\n"),
+    ("missing property for a parameter pattern with an empty body", "ig_ := fn ({zz_}) {\n}\nig_({})\n"),
+    ("name bound twice by a call with an empty body", "ig_ := fn (a_, [a_]) {\n}\nig_(1, [2])\n"),
     ("printing half a character", "hc_ := \"é\"\nprint(hc_[0])\n"),
     ("printing half a character cut by a range", "hc_ := \"a€b\"\nprint(hc_[0:2])\n"),
     ("printing half a character from an iteration", "for hc_ in \"é\" {\nprint(hc_[1])\n}\n"),
